@@ -418,6 +418,7 @@ impl<'p> Resolver<'p> {
         Prelude {
             doc: Vec::new(),
             attrs: pre.attrs.iter().map(normalize_attr).collect(),
+            docm: None,
         }
     }
 
